@@ -353,7 +353,7 @@ func roundTrip(ctx context.Context, fd protoreflect.FileDescriptor, siblings map
 		class := "other line differs"
 		switch {
 		case strings.Contains(g1, "//") && strings.TrimRight(g1[:strings.Index(g1, "//")], " ") == g2:
-			class = "trailing comment printed after a closing brace is lost by the parser"
+			class = "trailing comment printed after a closing brace is not read back"
 		case strings.HasPrefix(strings.TrimSpace(g1), "//") != strings.HasPrefix(strings.TrimSpace(g2), "//"):
 			class = "a comment line appears or disappears"
 		case strings.TrimSpace(g1) == "" || strings.TrimSpace(g2) == "":
@@ -406,6 +406,20 @@ func runC05(cfg *vh.Config) error {
 		Check:  "c05_check",
 	}
 	distinct := vh.Distinct{}
+	optSeen := vh.Distinct{}
+	var optCases []optCase
+	maxOpt := cfg.Scale(700, 12000)
+	addOpts := func(fd protoreflect.FileDescriptor, stream string, input any) {
+		cs, problems := optionCases(fd, optSeen)
+		for _, pr := range problems {
+			res.Fail(vh.Failure{Case: 0, Stream: stream, Sig: "C05 option printer fails on an element: " + failureClass(pr), Clause: "every option and extension value", Input: input, Got: pr})
+		}
+		for _, c := range cs {
+			if len(optCases) < maxOpt {
+				optCases = append(optCases, c)
+			}
+		}
+	}
 	caseNo := 0
 	repo := os.Getenv("VERIF_REPO")
 	if repo == "" {
@@ -449,6 +463,7 @@ func runC05(cfg *vh.Config) error {
 			if fd == nil {
 				continue
 			}
+			addOpts(fd, "repo-proto", input)
 			_, fails := roundTrip(ctx, fd, root.Files, false)
 			if len(fails) == 0 {
 				res.Count("repo-proto:round trip ok")
@@ -497,6 +512,7 @@ func runC05(cfg *vh.Config) error {
 		ok := true
 		for _, f := range files {
 			res.Count("compiled-file")
+			addOpts(f, "compiled", map[string]any{"package": p.Pkg, "file": f.Path(), "j5s": src})
 			_, fails := roundTrip(ctx, f, siblings, true)
 			if len(fails) > 0 {
 				ok = false
@@ -607,8 +623,6 @@ func runC05(cfg *vh.Config) error {
 		}
 	}
 
-	res.Evaluations = caseNo
-	res.Distinct = len(distinct)
 	const per = 400
 	shards, err := cf.WriteShards(cfg.Out, "cases", per)
 	if err != nil {
@@ -618,7 +632,29 @@ func runC05(cfg *vh.Config) error {
 		res.Cases[i].Shard = fmt.Sprintf("cases_%d", i/per)
 		res.Cases[i].Pos = i % per
 	}
-	res.Shards = shards
+	// option values: a second family of shards with its own case type
+	of := &vh.CasesFile{
+		Header: "From Coq Require Import String List NArith ZArith.\nFrom J5V.model Require Import ProtoPrintLit ProtoPrint ProtoPrintCorr.",
+		Type:   "c05opt",
+		Check:  "c05_opt_check",
+	}
+	for i, c := range optCases {
+		caseNo++
+		res.Count("option-value")
+		distinct.Add("opt:" + c.where + c.text)
+		of.Terms = append(of.Terms, c.term)
+		res.Cases = append(res.Cases, vh.CaseRec{Case: caseNo, Stream: "option-value", Shard: fmt.Sprintf("opts_%d", i/per), Pos: i % per, Input: c.where, Impl: c.text})
+		if len(c.text) > 12 && len(c.text) < 90 {
+			res.Sample(map[string]any{"stream": "option-value", "element": c.where, "printed": c.text}, 14)
+		}
+	}
+	oshards, err := of.WriteShards(cfg.Out, "opts", per)
+	if err != nil {
+		return err
+	}
+	res.Evaluations = caseNo
+	res.Distinct = len(distinct)
+	res.Shards = append(shards, oshards...)
 	return res.Write(cfg.Out)
 }
 
